@@ -92,7 +92,7 @@ def make_pairs(rng, count):
             else:
                 v = epflow.EpCase("b%d%s" % (i, kind[:2]), {"text": variant_text(rng, b, kind)}, fspec, user, [(k, area, lm)],
                                   strip=base.strip, tags=b.tags, want=["acs"])
-            variants.append((v, metacheck.relate_scaled(Fraction(1)), kind))
+            variants.append((v, metacheck.relate_exact() if kind == "repeat" else metacheck.relate_scaled(Fraction(1)), kind))
         pairs.append((base, variants))
     return pairs
 
@@ -101,7 +101,7 @@ def run(tier, seed):
     return metacheck.run("C10", tier, seed, THEOREMS, make_pairs,
                          "data-level theorems (reorder, split, rename in the balance; order independence of completion and auxiliary "
                          "assignment; stable final sort). Partial: text-level rewritings (comments, blank lines, header, BOM, CRLF, white "
-                         "space, id 0 omitted) and repeated evaluation across processes / hash-map orders are established by the "
+                         "space, id 0 omitted) and repeated evaluation (other hash-map orders; bit-identical results required) are established by the "
                          "differential run on the implementation only; f32 summation order is not modelled",
                          "each base file is rewritten by two of {line reorder, split of components into two lines adding up, consistent id "
                          "renumbering, decoration with comments/blank lines/header/BOM/CRLF/white space/omitted id 0} and re-evaluated "
